@@ -109,6 +109,12 @@ theorem attrsNodup_create (s : Store) (a : Val) (h : s.AttrsNodup) : (s.create a
   · exact h x hx
   · rw [hx]; simp [newRec]
 
+theorem attrsNodup_saveBad (s : Store) (rpt : Option Nat) (pre : Patch) (e : Err) (h : s.AttrsNodup) :
+    (s.saveBad rpt pre e).1.AttrsNodup := by
+  rcases saveBad_cases s rpt pre e with ⟨e', he⟩ | ⟨i, r, _, hr, he⟩ <;> rw [he]
+  · exact h
+  · exact attrsNodup_set h i _ (applyPatch_attrs_nodup pre r (h r (List.mem_of_getElem? hr))) _
+
 theorem attrsNodup_step (s : Store) (op : Op) (h : s.AttrsNodup) : (step s op).1.AttrsNodup := by
   cases op with
   | matchIncoming a au p =>
@@ -150,6 +156,14 @@ theorem attrsNodup_step (s : Store) (op : Op) (h : s.AttrsNodup) : (step s op).1
     · exact h
     · rename_i r hr
       exact attrsNodup_set h i _ (applyPatch_attrs_nodup p r (h r (List.mem_of_getElem? hr))) _
+  | matchIncomingBad a au pre e =>
+    simp only [step]
+    rcases matchIncomingBad_cases s a au pre e with ⟨i, _, he⟩ | ⟨_, _, he⟩ | ⟨_, _, he⟩ <;> rw [he]
+    · exact attrsNodup_saveBad _ _ _ _ h
+    · exact attrsNodup_saveBad _ _ _ _ (attrsNodup_create s a h)
+    · exact h
+  | saveBad rpt pre e => exact attrsNodup_saveBad s rpt pre e h
+  | patchBad i pre e => exact attrsNodup_saveBad s (some i) pre e h
 
 theorem attrsNodup_run (h : List Op) : (run h).1.AttrsNodup :=
   runFrom_induction Store.AttrsNodup attrsNodup_step init h (by intro r hr; simp [init] at hr)
